@@ -31,6 +31,7 @@ type Obligation struct {
 	Replay  string       // replay class: orderlaw, ...
 	Meta    map[string]string
 	Parts   []Part // conjuncts of Goal (split on failure)
+	Note2   string
 }
 
 type Part struct {
@@ -93,12 +94,14 @@ type Exec struct {
 	MaxPaths   int
 	paths      int
 	FuncTables map[string]*FuncTable
+	RegexpSubexp map[string]int // "pkg/aa.regVariableReference" -> NumSubexp
 	GhostSort  map[string]string
 	InitGhost  map[string]string
 	oldNames   map[string]string
 	specAxiomsLoaded bool
 	selfFn     *ssa.Function
 	entryOld   *State
+	entryArgs  []Val
 	NoLemmaAxioms map[string]bool
 	tableArrs  map[string]string
 	UsedTrusted map[string]bool
@@ -120,7 +123,7 @@ func NewExec(prog *load.Program, cs *contract.Set, tables map[string]Val) *Exec 
 		typeIDs: map[string]int{}, promoted: map[*Obj]string{}, mapObjs: map[string]*Obj{}, mapOrigin: map[*Obj]mapOrig{},
 		globals: map[string]*Obj{}, globalInit: map[string]Val{}, globalInitPC: map[string][]string{},
 		GlobalWrites: map[string]bool{}, GlobalReads: map[string]bool{}, pureAxioms: map[string]bool{},
-		NoLemmaAxioms: map[string]bool{}, FuncTables: map[string]*FuncTable{}, GhostSort: map[string]string{}, oldNames: map[string]string{}, tableArrs: map[string]string{},
+		NoLemmaAxioms: map[string]bool{}, FuncTables: map[string]*FuncTable{}, RegexpSubexp: map[string]int{}, GhostSort: map[string]string{}, oldNames: map[string]string{}, tableArrs: map[string]string{},
 		MaxPaths: 20000, UsedTrusted: map[string]bool{}, UsedContracts: map[string]bool{}, Inlined: map[string]bool{},
 	}
 }
@@ -510,6 +513,9 @@ func (ex *Exec) step(st *State, in ssa.Instruction) {
 	case *ssa.DebugRef:
 		if id, ok := in.Expr.(*ast.Ident); ok {
 			if v, ok2 := env[in.X]; ok2 {
+				if st.Fr.ZeroNamed != nil {
+					delete(st.Fr.ZeroNamed, id.Name)
+				}
 				st.Fr.Names[id.Name] = v
 				if in.IsAddr {
 					st.Fr.Addr[id.Name] = true
@@ -517,8 +523,43 @@ func (ex *Exec) step(st *State, in ssa.Instruction) {
 					delete(st.Fr.Addr, id.Name)
 				}
 			} else if c, ok3 := in.X.(*ssa.Const); ok3 {
-				st.Fr.Names[id.Name] = ex.constVal(st, c)
-				delete(st.Fr.Addr, id.Name)
+				bound := false
+				if c.Value == nil {
+					// the builder may describe a definition by the zero value of its type; prefer
+					// an SSA value that another DebugRef gives the same name and that is live
+				search:
+					for _, b := range in.Parent().Blocks {
+						for _, other := range b.Instrs {
+							dr, isDR := other.(*ssa.DebugRef)
+							if !isDR || dr.IsAddr {
+								continue
+							}
+							if oid, isID := dr.Expr.(*ast.Ident); isID && oid.Name == id.Name {
+								if _, isC := dr.X.(*ssa.Const); isC {
+									continue
+								}
+								if v, live := env[dr.X]; live {
+									st.Fr.Names[id.Name] = v
+									delete(st.Fr.Addr, id.Name)
+									bound = true
+									break search
+								}
+							}
+						}
+					}
+				}
+				if !bound {
+					st.Fr.Names[id.Name] = ex.constVal(st, c)
+					delete(st.Fr.Addr, id.Name)
+					if c.Value == nil {
+						if st.Fr.ZeroNamed == nil {
+							st.Fr.ZeroNamed = map[string]bool{}
+						}
+						st.Fr.ZeroNamed[id.Name] = true
+					}
+				} else if st.Fr.ZeroNamed != nil {
+					delete(st.Fr.ZeroNamed, id.Name)
+				}
 			}
 		}
 	case *ssa.Alloc:
@@ -633,7 +674,7 @@ func (ex *Exec) step(st *State, in ssa.Instruction) {
 			return
 		}
 		o := ex.newObj(in.Type(), "makemap")
-		st.Mem[o] = MapContent{Val: "((as const (Array " + ks + " " + vs + ")) " + zeroTerm(vs) + ")", Dom: "((as const (Array " + ks + " Bool)) false)"}
+		st.Mem[o] = MapContent{Val: ex.constMap(ks, vs), Dom: "((as const (Array " + ks + " Bool)) false)"}
 		env[in] = Map{Obj: o, K: t.Key(), V: t.Elem()}
 	case *ssa.MapUpdate:
 		m, ok := ex.value(st, in.Map).(Map)
